@@ -52,15 +52,16 @@ func TestC14(t *testing.T) {
 		run.Finish(cov)
 		return
 	}
-	deadline := ev.Deadline(150, 1200)
+	deadline := ev.Deadline(300, 1500)
 	bound := 1
 	if ev.Thorough() {
 		bound = 2
 	}
-	andNot := &Expr{Op: "and", Kids: []*Expr{{Op: "leaf", Leaf: LIncA}, {Op: "not", Kids: []*Expr{{Op: "leaf", Leaf: LIncB}}}}}
-	orTrv := &Expr{Op: "or", Kids: []*Expr{{Op: "leaf", Leaf: LIncB}, {Op: "leaf", Leaf: LTrvAP}}}
+	// operand orders chosen so that no "cheaper first" reordering of the shared AST is a no-op
+	andNot := &Expr{Op: "and", Kids: []*Expr{{Op: "not", Kids: []*Expr{{Op: "leaf", Leaf: LIncB}}}, {Op: "leaf", Leaf: LIncA}}}
+	orTrv := &Expr{Op: "or", Kids: []*Expr{{Op: "leaf", Leaf: LTrvAP}, {Op: "leaf", Leaf: LIncB}}}
 	var cov struct {
-		pairs, execs, trans, states, aloneExecs, skipped int
+		pairs, cancelPairs, execs, trans, states, aloneExecs, skipped int
 		complete                                       bool
 	}
 	cov.complete = true
@@ -69,9 +70,10 @@ func TestC14(t *testing.T) {
 		cfg := mkCfgRefless(e)
 		w := NewWorld(t, WorldOpt{Namespaces: cfg.NS, Depth: 6})
 		ts := []refsem.Tuple{
-			tss("o1", "a", "g1", "a"), tss("o2", "a", "g1", "a"), tss("g1", "a", "g3", "a"), tid("g3", "a", "u"), // two hops: the visited set matters
-			tss("g1", "a", "g2", "a"), tss("g2", "a", "g1", "a"), // cycle
-			tid("o1", "b", "v"), tid("o2", "b", "u"), tss("o3", "a", "o3", "a"), // self loop
+			// o1 -> g1 -> g2 -> g3 -> u and o2 -> g2: nested expansions put g2 / g3 into the visited set
+			tss("o1", "a", "g1", "a"), tss("o2", "a", "g2", "a"), tss("g1", "a", "g2", "a"), tss("g2", "a", "g3", "a"), tid("g3", "a", "u"),
+			tss("g3", "a", "g1", "a"), // cycle
+			tid("o1", "b", "v"), tss("o3", "a", "o3", "a"), // decoy, self loop
 		}
 		rows := w.Rows(ts)
 		exp := expand.NewEngine(&deps{RegistryDefault: w.Reg, ms: w.Store, names: w.Names})
@@ -84,8 +86,9 @@ func TestC14(t *testing.T) {
 			return &ketoapi.RelationTuple{Namespace: "n", Object: o, Relation: "p", SubjectID: &u}
 		}
 		reqs := []c14req{
+			chk(tid("o1", "a", "u")), // plain relation: the first expansion of the request consults the visited set
+			chk(tid("o2", "a", "u")),
 			chk(tid("o1", "p", "u")),
-			chk(tid("o2", "p", "u")),
 			chk(tid("g2", "a", "u")),
 			{"batch [o1#p@u, o2#p@u]", func(ctx context.Context) string {
 				res, err := w.Eng.BatchCheck(ctx, []*ketoapi.RelationTuple{api("o1"), api("o2")}, 0)
@@ -106,6 +109,7 @@ func TestC14(t *testing.T) {
 				return treeStr(tr)
 			}},
 		}
+		cancelFirst := false // an environment thread cancels the FIRST request's context at any point
 		exec := func(vc vsched.Config, rs []c14req, out []string) *vsched.Execution {
 			w.Store.Reset(rows)
 			w.Store.Visible = true
@@ -114,9 +118,12 @@ func TestC14(t *testing.T) {
 				for i, r := range rs {
 					i, r := i, r
 					wg.Add(1)
+					ctx, cancel := vsched.WithCancel(context.Background())
+					if i == 0 && cancelFirst {
+						vsched.GoEnv("canceller", func() { cancel() })
+					}
 					vsched.Go("request:"+r.name, func() {
 						defer wg.Done()
-						ctx, cancel := vsched.WithCancel(context.Background())
 						out[i] = r.run(ctx)
 						cancel()
 					})
@@ -124,6 +131,7 @@ func TestC14(t *testing.T) {
 				wg.Wait()
 			})
 		}
+		astBefore := relJSON(w.Cfg.Namespaces)
 		// outcome sets of every request run alone, all schedules to the same bound
 		alone := make([]map[string]bool, len(reqs))
 		for i, r := range reqs {
@@ -213,12 +221,114 @@ func TestC14(t *testing.T) {
 				}
 			}
 		}
-	}
+	
+		// one request is cancelled at an arbitrary point while another runs: the other one's answer
+		// must still be one it gives alone, and nothing may be left behind
+		cancelFirst = true
+		for i := 0; i < 3; i++ { // the cancelled request: one of the checks
+			for j := 0; j < 3; j++ { // the bystander: a check
+				n++
+				if n%nshards != shard || deadlinePassed(deadline) {
+					continue
+				}
+				pair := []c14req{reqs[i], reqs[j]}
+				out := make([]string, 2)
+				cov.cancelPairs++
+				reported := false
+				bo := 0
+				if os.Getenv("VERIF_C14_BASEORDER") == "1" {
+					bo = 1
+				}
+				ex := &vsched.Explore{Bound: bound, Deadline: deadline, BaseOrder: bo}
+				ex.Run(func(vc vsched.Config) *vsched.Execution { return exec(vc, pair, out) },
+					func(x *vsched.Execution) bool {
+						if reported {
+							return true
+						}
+						rep := map[string]any{"config": cfg.Name, "opl": refsem.RenderOPL(cfg.NS), "tuples_in_row_order": tuplesStr(ts), "requests": []string{pair[0].name + " (cancelled at some point)", pair[1].name}, "choices": x.Choices}
+						if x.Outcome != "ok" || len(x.Leaked) > 0 {
+							reported = true
+							run.Violation("abnormal-with-cancel:"+x.Outcome, fmt.Sprintf("requests %q (cancelled) || %q: execution %s, leaked %v", pair[0].name, pair[1].name, x.Outcome, x.Leaked), rep)
+						} else if !alone[j][out[1]] {
+							reported = true
+							run.Violation("interference-after-cancel:"+strings.Fields(pair[1].name)[0], fmt.Sprintf("request %q answered %q while %q was cancelled concurrently; alone it answers %v (config %s)", pair[1].name, out[1], pair[0].name, alone[j], cfg.Name), rep)
+						}
+						return true
+					})
+				cov.execs += ex.Execs
+				cov.trans += ex.Transitions
+				if !ex.Complete {
+					cov.complete = false
+				}
+			}
+		}
+		cancelFirst = false
+		// ... and the same with the second request issued right AFTER the cancelled one returned (its
+		// stragglers may still be running): whatever the cancelled request leaves behind must not
+		// change the next request's answer
+		for i := 0; i < 3; i++ {
+			for j := 0; j < 3; j++ {
+				n++
+				if n%nshards != shard || deadlinePassed(deadline) {
+					continue
+				}
+				a, b := reqs[i], reqs[j]
+				var outB string
+				cov.cancelPairs++
+				reported := false
+				for _, bo := range []int{0, 1} {
+					ex := &vsched.Explore{Bound: bound, Deadline: deadline, BaseOrder: bo}
+					ex.Run(func(vc vsched.Config) *vsched.Execution {
+						w.Store.Reset(rows)
+						w.Store.Visible = true
+						return vsched.Run(vc, func() {
+							var wg vsched.WaitGroup
+							wg.Add(1)
+							ctx, cancel := vsched.WithCancel(context.Background())
+							vsched.GoEnv("canceller", func() { cancel() })
+							vsched.Go("request:"+a.name, func() {
+								defer wg.Done()
+								a.run(ctx)
+								cancel()
+							})
+							wg.Wait()
+							ctx2, cancel2 := vsched.WithCancel(context.Background())
+							outB = b.run(ctx2)
+							cancel2()
+						})
+					}, func(x *vsched.Execution) bool {
+						if reported {
+							return true
+						}
+						rep := map[string]any{"config": cfg.Name, "opl": refsem.RenderOPL(cfg.NS), "tuples_in_row_order": tuplesStr(ts), "requests": []string{a.name + " (cancelled at some point)", "then " + b.name}, "choices": x.Choices, "base_order": bo}
+						if x.Outcome != "ok" || len(x.Leaked) > 0 {
+							reported = true
+							run.Violation("abnormal-with-cancel:"+x.Outcome, fmt.Sprintf("request %q (cancelled) then %q: execution %s, leaked %v", a.name, b.name, x.Outcome, x.Leaked), rep)
+						} else if !alone[j][outB] {
+							reported = true
+							run.Violation("interference-after-cancel:"+strings.Fields(b.name)[0], fmt.Sprintf("request %q answered %q right after %q was cancelled; alone it answers %v (config %s)", b.name, outB, a.name, alone[j], cfg.Name), rep)
+						}
+						return true
+					})
+					cov.execs += ex.Execs
+					cov.trans += ex.Transitions
+					if !ex.Complete {
+						cov.complete = false
+					}
+				}
+			}
+		}
+		// serving requests must not modify the shared namespace configuration
+		if after := relJSON(w.Cfg.Namespaces); after != astBefore {
+			run.Violation("shared-config-mutated-by-requests", fmt.Sprintf("the namespace AST served to all requests changed while requests ran (config %s): before %s after %s", cfg.Name, astBefore, after), map[string]any{"config": cfg.Name})
+		}
+}
 	run.FinishPart(map[string]any{
 		"states":                        cov.states,
 		"transitions":                   cov.trans,
 		"traces_validated_against_impl": cov.execs + cov.aloneExecs,
 		"request_pairs":                 cov.pairs,
+		"request_pairs_with_cancellation": cov.cancelPairs,
 		"pair_executions":               cov.execs,
 		"alone_executions":              cov.aloneExecs,
 		"max_deviation_bound":           bound,
